@@ -440,6 +440,28 @@ func TestVerifC04(t *testing.T) {
 				if !ok {
 					ck.Failf(desc, "state %d lookahead %d vs rule %d (rule precedence terminal %d): documented resolution is %q (c = unresolved, shift), tables have %c%d", ts, term, rule, rp, want, kind, val)
 				}
+				// the choice must stay observable through the compressed tables as well
+				for _, dr := range []bool{false, true} {
+					var enc *DisplacementEnc
+					if p := vRecover(func() { enc = Optimize(tb.DefaultEnc, hg.nt, len(tb.RuleLen), dr) }); p != "" {
+						continue
+					}
+					opt := &Tables{DefaultEnc: tb.DefaultEnc, Optimized: enc}
+					tt := term
+					na, _ := opt.hAction(ts, func(int) int { return tt }, hRunOpts{optimized: true})
+					ok2 := true
+					switch want {
+					case 'c', 's':
+						ok2 = na < -1
+					case 'r':
+						ok2 = na == rule
+					case 'e':
+						ok2 = na == -1
+					}
+					if !ok2 {
+						ck.Failf(desc, "state %d lookahead %d vs rule %d: documented resolution is %q, optimized tables (defaultReduce=%v) decode to action %d", ts, term, rule, want, dr, na)
+					}
+				}
 			}
 		}
 		if !complex && tb.SR != sr {
@@ -715,9 +737,162 @@ func TestVerifC06(t *testing.T) {
 
 // ---------- C07 ----------
 
+type hDeepDecision struct {
+	eventIdx   int   // index in events of the reduction chosen by the multi-token lookahead
+	chosen     int   // rule picked by the trie
+	candidates []int // every rule reachable in the trie below this cell
+}
+
+// hTrieRules collects the rules below a deep-lookahead entry of the Lalr array.
+func (t *Tables) hTrieRules(action int, depth int, out map[int]bool) {
+	if depth > 16 {
+		return
+	}
+	a := -action - 3
+	for ; a+1 < len(t.Lalr) && t.Lalr[a] >= 0; a += 2 {
+		v := t.Lalr[a+1]
+		if v >= 0 {
+			out[v] = true
+		} else if v < -2 {
+			t.hTrieRules(v, depth+1, out)
+		}
+	}
+}
+
+// hRunDeep interprets the default encoding with multi-token lookahead; force[k] overrides the
+// k-th multi-token decision with the given rule.
+func (t *Tables) hRunDeep(g *Grammar, in int, w []Sym, force map[int]int) (accept bool, events []string, decisions []hDeepDecision) {
+	defer func() { recover() }()
+	end := t.FinalStates[in]
+	state := in
+	stack := []int{state}
+	var syms []int
+	pos := 0
+	next := func(k int) int {
+		if pos+k < len(w) {
+			return int(w[pos+k])
+		}
+		return 0
+	}
+	for steps := 0; state != end && steps < 2000; steps++ {
+		action := t.Action[state]
+		if action < -2 {
+			depth := 0
+			for action < -2 {
+				a := -action - 3
+				sym := next(depth)
+				for ; t.Lalr[a] >= 0; a += 2 {
+					if t.Lalr[a] == sym {
+						break
+					}
+				}
+				prev := action
+				action = t.Lalr[a+1]
+				if depth == 0 && action < -2 {
+					d := hDeepDecision{eventIdx: len(events)}
+					cands := map[int]bool{}
+					t.hTrieRules(action, 0, cands)
+					// plus every rule whose right-hand side is on top of the symbol stack
+					for ri, rule := range g.Rules {
+						rhs := hRHS(rule)
+						if len(rhs) > len(syms) {
+							continue
+						}
+						match := true
+						for x := range rhs {
+							if syms[len(syms)-len(rhs)+x] != int(rhs[x]) {
+								match = false
+							}
+						}
+						if match {
+							cands[ri] = true
+						}
+					}
+					for c := range cands {
+						d.candidates = append(d.candidates, c)
+					}
+					sort.Ints(d.candidates)
+					decisions = append(decisions, d)
+				}
+				_ = prev
+				depth++
+				if depth > 16 {
+					return false, events, decisions
+				}
+			}
+			if depth > 1 {
+				k := len(decisions) - 1
+				decisions[k].chosen = action
+				if f, ok := force[k]; ok {
+					action = f
+				}
+			}
+		}
+		switch {
+		case action >= 0:
+			ln := t.RuleLen[action]
+			stack = stack[:len(stack)-ln]
+			syms = append(syms[:len(syms)-ln], t.RuleSymbol[action])
+			state = t.gotoState(stack[len(stack)-1], t.RuleSymbol[action])
+			stack = append(stack, state)
+			events = append(events, fmt.Sprintf("r%d", action))
+		case action == -1:
+			state = t.gotoState(state, next(0))
+			if state >= 0 {
+				stack = append(stack, state)
+				syms = append(syms, next(0))
+				events = append(events, fmt.Sprintf("s%d", next(0)))
+				if next(0) != 0 {
+					pos++
+				}
+			}
+		}
+		if action == -2 || state == -1 {
+			return false, events, decisions
+		}
+	}
+	return state == end, events, decisions
+}
+
+// hIsF13 reports whether a wrongly rejected sentence falls into known finding F13: a multi-token
+// lookahead decision picked a rule although, under another candidate rule, the parse succeeds and
+// needs a reduction between shifting the first and the second lookahead token (the follow sets
+// of terminal transitions only see in-state shifts).
+func (t *Tables) hIsF13(g *Grammar, in int, w []Sym) bool {
+	acc, _, decisions := t.hRunDeep(g, in, w, nil)
+	if acc || len(decisions) == 0 {
+		return false
+	}
+	for k, d := range decisions {
+		for _, c := range d.candidates {
+			if c == d.chosen {
+				continue
+			}
+			acc2, ev, _ := t.hRunDeep(g, in, w, map[int]int{k: c})
+			if !acc2 {
+				continue
+			}
+			shifts := 0
+			for _, e := range ev[d.eventIdx:] {
+				if e[0] == 's' {
+					shifts++
+					if shifts >= t.UsedLADepth && shifts >= 2 {
+						break
+					}
+				} else if shifts >= 1 {
+					return true // a reduction between two tokens of the lookahead window
+				}
+			}
+		}
+	}
+	return false
+}
+
 func TestVerifC07(t *testing.T) {
 	ck := vNew("C07/lalr-k", "seeded random grammars and reduce/reduce families that need 2..3 tokens of lookahead, compiled with lalr(2) and lalr(3) (lalr(4) thorough); all token strings of length <=6", false,
 		"Compile", "compiler.resolveWithLookahead", "trieBuilder.resolve", "trieBuilder.emit")
+	kf := vNew("C07/lalr-k-follow-through-reduction", "same grammars; only rejected sentences of the class described by known finding F13", false, "compiler.buildLA", "trieBuilder.resolve")
+	kfSeen := map[int]bool{}
 	r := vNewRand(vSeed() + 19)
 	n := hCount(1500, 40000)
 	ks := []int{2, 3}
@@ -751,6 +926,13 @@ func TestVerifC07(t *testing.T) {
 					wantAcc, _ := hExpect(e, inp, w)
 					tr := tb.hRun(g, in, w, hRunOpts{})
 					if tr.bad != "" || tr.accept != wantAcc {
+						if tr.bad == "" && wantAcc && tb.hIsF13(g, in, w) {
+							if !kfSeen[k] {
+								kfSeen[k] = true
+								kf.Failf(desc, "input %d tokens %q: sentence rejected; the multi-token lookahead picked a rule although another candidate parses it with a reduction between the first two lookahead tokens (UsedLADepth=%d)", in, hStr(w), tb.UsedLADepth)
+							}
+							continue
+						}
 						ck.Failf(desc, "input %d tokens %q: parser accepts=%v, grammar says %v %s (UsedLADepth=%d)", in, hStr(w), tr.accept, wantAcc, tr.bad, tb.UsedLADepth)
 						return
 					}
@@ -795,5 +977,6 @@ func TestVerifC07(t *testing.T) {
 		}
 		one(hg)
 	}
-	vWrite(t, []string{"deep lookahead interpreter transcribed from the resolveDeepLA template block"}, ck)
+	kf.Cases, kf.Nontrivial = ck.Cases, ck.Nontrivial
+	vWrite(t, []string{"deep lookahead interpreter transcribed from the resolveDeepLA template block"}, ck, kf)
 }
